@@ -28,6 +28,10 @@ CLAIMED = {
    text="Machine-checked proof (Coq) about the model of RunFrame's unwinding loop and of exception matching: an exception is never swallowed or diverted by unwinding (it enters the innermost enclosing except/finally handler or leaves the frame), return and break run every intervening finally body, and the handler taken is the first whose class is in the raised class's MRO. The model is the one C12 ties to the real VM at run time. Code generation for try/finally/with/loops is not modelled: stdout path traces, escaping exception class and traceback line numbers of systematic statement nestings (all depth-1 nestings, pending exits across cleanup code, sampled deeper nestings) are compared with CPython.",
    note="Trusted: Coq kernel; the hand-written unwinding model; CPython 3.11 as validated oracle for the compiled programs (continue inside finally excluded as in 3.4). Partial: compile.go is covered by differential testing only; user-defined exception classes are a listed finding.",
    technique="Rocq/Coq proofs over the VM unwinding model + CPython differential on systematic control-flow nestings", ref="5/C02"),
+ "C04": dict(
+   text="Machine-checked proof (Coq) of the call-site and MAKE_FUNCTION operand round trips (counts below 256 / 32768; refuted beyond) and that a successful binding by the EvalCode model leaves no parameter unbound and builds the star containers exactly when declared. The EvalCode model is tied to the code by running the exhaustive signature x plain-call product on the implementation and comparing inside Coq; *seq/**map call shapes and error selection are compared with CPython; Go callables of the four supported signatures are exercised by a harness scenario over two contexts (receiver, positional, keyword arguments, arity errors).",
+   note="Trusted: Coq kernel; hand-written EvalCode model (correspondence-tied); CPython 3.11 as validated oracle. Partial: the full equivalence of the binding model with the language-reference algorithm is established by the exhaustive comparison with CPython, not by a theorem; keyword-only default misalignment is a listed finding.",
+   technique="Rocq/Coq arithmetic round-trip proofs + model/implementation vm_compute correspondence on the exhaustive signature x call product + CPython differential + Go-callable harness", ref="5/C04"),
 }
 NOT_YET = "check not built yet in this round (planned in DESIGN.md section 8)"
 checks = []; na = []
